@@ -183,6 +183,57 @@ pub proof fn lemma_tkhd_pre_len(b: TkhdBox)
     broadcast use lemma_be_bytes_len;
 }
 
+// ---- mdhd: ISO/IEC 14496-12 section 8.4.2 MediaHeaderBox extends FullBox('mdhd', version, flags)
+pub open spec fn mdhd_off_0(b: MdhdBox) -> int { 12 }
+pub open spec fn mdhd_off_1(b: MdhdBox) -> int { mdhd_off_0(b) + (if b.version == 1 { 8int } else { 0int }) }
+pub open spec fn mdhd_off_2(b: MdhdBox) -> int { mdhd_off_1(b) + (if b.version == 1 { 8int } else { 0int }) }
+pub open spec fn mdhd_off_3(b: MdhdBox) -> int { mdhd_off_2(b) + (if b.version == 1 { 4int } else { 0int }) }
+pub open spec fn mdhd_off_4(b: MdhdBox) -> int { mdhd_off_3(b) + (if b.version == 1 { 8int } else { 0int }) }
+pub open spec fn mdhd_off_5(b: MdhdBox) -> int { mdhd_off_4(b) + (if b.version == 0 { 4int } else { 0int }) }
+pub open spec fn mdhd_off_6(b: MdhdBox) -> int { mdhd_off_5(b) + (if b.version == 0 { 4int } else { 0int }) }
+pub open spec fn mdhd_off_7(b: MdhdBox) -> int { mdhd_off_6(b) + (if b.version == 0 { 4int } else { 0int }) }
+pub open spec fn mdhd_off_8(b: MdhdBox) -> int { mdhd_off_7(b) + (if b.version == 0 { 4int } else { 0int }) }
+pub open spec fn mdhd_off_9(b: MdhdBox) -> int { mdhd_off_8(b) + 2 }
+pub open spec fn mdhd_off_10(b: MdhdBox) -> int { mdhd_off_9(b) + 2 }
+pub open spec fn mdhd_len(b: MdhdBox) -> int { mdhd_off_10(b) }
+
+pub open spec fn mdhd_rd_wire(b: MdhdBox) -> bool { flags_wire(b.flags) && b.version <= 1 && ((b.version == 0 ==> b.creation_time <= 0xffff_ffff && b.modification_time <= 0xffff_ffff && b.duration <= 0xffff_ffff)) }
+pub open spec fn mdhd_wire(b: MdhdBox) -> bool { flags_wire(b.flags) && b.version <= 1 && ((b.version == 0 ==> b.creation_time <= 0xffff_ffff && b.modification_time <= 0xffff_ffff && b.duration <= 0xffff_ffff)) }
+
+/// layout: what the decoder must have seen (reserved fields are not constrained on input)
+pub open spec fn mdhd_at(d: Seq<u8>, p: int, b: MdhdBox) -> bool {
+    &&& fullbox_at(d, p, b.version, b.flags)
+    &&& ((b.version == 1) ==> be64(d, p + mdhd_off_0(b)) == b.creation_time)
+    &&& ((b.version == 1) ==> be64(d, p + mdhd_off_1(b)) == b.modification_time)
+    &&& ((b.version == 1) ==> be32(d, p + mdhd_off_2(b)) == b.timescale)
+    &&& ((b.version == 1) ==> be64(d, p + mdhd_off_3(b)) == b.duration)
+    &&& ((b.version == 0) ==> be32(d, p + mdhd_off_4(b)) == (b.creation_time as u32))
+    &&& ((b.version == 0) ==> be32(d, p + mdhd_off_5(b)) == (b.modification_time as u32))
+    &&& ((b.version == 0) ==> be32(d, p + mdhd_off_6(b)) == b.timescale)
+    &&& ((b.version == 0) ==> be32(d, p + mdhd_off_7(b)) == (b.duration as u32))
+    &&& (b.language@ == lang_string_spec(be16(d, p + mdhd_off_8(b))))
+}
+
+/// reference encoder, field by field
+pub open spec fn mdhd_pre_0(b: MdhdBox) -> Seq<u8> { hdr_bytes(mdhd_len(b) as u64, 0x6d646864) + fullbox_bytes(b.version, b.flags) }
+pub open spec fn mdhd_pre_1(b: MdhdBox) -> Seq<u8> { if b.version == 1 { mdhd_pre_0(b) + be_bytes(b.creation_time as nat, 8) } else { mdhd_pre_0(b) } }
+pub open spec fn mdhd_pre_2(b: MdhdBox) -> Seq<u8> { if b.version == 1 { mdhd_pre_1(b) + be_bytes(b.modification_time as nat, 8) } else { mdhd_pre_1(b) } }
+pub open spec fn mdhd_pre_3(b: MdhdBox) -> Seq<u8> { if b.version == 1 { mdhd_pre_2(b) + be_bytes(b.timescale as nat, 4) } else { mdhd_pre_2(b) } }
+pub open spec fn mdhd_pre_4(b: MdhdBox) -> Seq<u8> { if b.version == 1 { mdhd_pre_3(b) + be_bytes(b.duration as nat, 8) } else { mdhd_pre_3(b) } }
+pub open spec fn mdhd_pre_5(b: MdhdBox) -> Seq<u8> { if b.version == 0 { mdhd_pre_4(b) + be_bytes((b.creation_time as u32) as nat, 4) } else { mdhd_pre_4(b) } }
+pub open spec fn mdhd_pre_6(b: MdhdBox) -> Seq<u8> { if b.version == 0 { mdhd_pre_5(b) + be_bytes((b.modification_time as u32) as nat, 4) } else { mdhd_pre_5(b) } }
+pub open spec fn mdhd_pre_7(b: MdhdBox) -> Seq<u8> { if b.version == 0 { mdhd_pre_6(b) + be_bytes(b.timescale as nat, 4) } else { mdhd_pre_6(b) } }
+pub open spec fn mdhd_pre_8(b: MdhdBox) -> Seq<u8> { if b.version == 0 { mdhd_pre_7(b) + be_bytes((b.duration as u32) as nat, 4) } else { mdhd_pre_7(b) } }
+pub open spec fn mdhd_pre_9(b: MdhdBox) -> Seq<u8> { mdhd_pre_8(b) + be_bytes(lang_code_spec(b.language@) as nat, 2) }
+pub open spec fn mdhd_pre_10(b: MdhdBox) -> Seq<u8> { mdhd_pre_9(b) + be_bytes(0, 2) }
+pub open spec fn mdhd_bytes(b: MdhdBox) -> Seq<u8> { mdhd_pre_10(b) }
+
+pub proof fn lemma_mdhd_pre_len(b: MdhdBox)
+    ensures mdhd_pre_0(b).len() == mdhd_off_0(b), mdhd_pre_1(b).len() == mdhd_off_1(b), mdhd_pre_2(b).len() == mdhd_off_2(b), mdhd_pre_3(b).len() == mdhd_off_3(b), mdhd_pre_4(b).len() == mdhd_off_4(b), mdhd_pre_5(b).len() == mdhd_off_5(b), mdhd_pre_6(b).len() == mdhd_off_6(b), mdhd_pre_7(b).len() == mdhd_off_7(b), mdhd_pre_8(b).len() == mdhd_off_8(b), mdhd_pre_9(b).len() == mdhd_off_9(b), mdhd_pre_10(b).len() == mdhd_off_10(b)
+{
+    broadcast use lemma_be_bytes_len;
+}
+
 // ---- mfhd: ISO/IEC 14496-12 section 8.8.5 MovieFragmentHeaderBox extends FullBox('mfhd', version, flags)
 pub open spec fn mfhd_off_0(b: MfhdBox) -> int { 12 }
 pub open spec fn mfhd_off_1(b: MfhdBox) -> int { mfhd_off_0(b) + 4 }
